@@ -953,6 +953,49 @@ fn cfg_strat() -> impl Strategy<Value = CfgCase> {
     prop::collection::vec(any::<u16>(), 160).prop_map(|seeds| CfgCase { seeds })
 }
 
+// --------------------------------------------------------- sessions on a TOML-loaded config
+// (1) the TOML text of a generated configuration loads to exactly the configuration it spells
+// out (differential against the directly constructed structure); (2) a model-based session on a
+// server built from that text behaves as the file says: configured channels exist with their
+// topic, flags, key, limit and masks, every nick of a rank list gets every listed rank when it
+// joins, operators authenticate with their name / password / mask, quota and default user modes
+// apply.
+pub fn check_toml_session(c: &crate::scenario::ScCase, st: &mut Stats) -> Result<(), Viol> {
+    let spec = &crate::checks::mbchecks::C20G;
+    let b = (spec.build)(&c.cfg);
+    let text = b.cfg.to_toml();
+    crate::sim::set_in_sim(true);
+    let loaded = catch_unwind(AssertUnwindSafe(|| crate::cfgspec::load_toml(&text)));
+    crate::sim::set_in_sim(false);
+    let _ = crate::sim::take_panics();
+    let direct = b.cfg.to_main_config_direct();
+    match loaded {
+        Ok(Ok(l)) => {
+            if l != direct {
+                let a = format!("{:?}", l);
+                let d = format!("{:?}", direct);
+                // first differing region, for the report
+                let i = a.chars().zip(d.chars()).position(|(x, y)| x != y).unwrap_or(0);
+                let lo = i.saturating_sub(80);
+                return Err(Viol::new(
+                    "C20.toml_means_what_it_says",
+                    "toml-differs",
+                    format!("the configuration file does not load to what it spells out; loaded ...{}... expected ...{}...\n{}", crate::checks::c05::clip(&a[a.char_indices().nth(lo).map_or(0, |x| x.0)..], 240), crate::checks::c05::clip(&d[d.char_indices().nth(lo).map_or(0, |x| x.0)..], 240), text),
+                ));
+            }
+        }
+        Ok(Err(e)) => return Err(Viol::new("C20.valid_config_starts", "valid-rejected", format!("valid configuration rejected: {}\n{}", e, text))),
+        Err(_) => return Err(Viol::new("C20.valid_config_starts", "load-panic", format!("loading a valid configuration aborted\n{}", text))),
+    }
+    crate::cfgspec::VIA_TOML.with(|v| v.set(true));
+    let r = crate::checks::mb::run_case(spec, c, st);
+    crate::cfgspec::VIA_TOML.with(|v| v.set(false));
+    r.map_err(|mut v| {
+        v.explanation = format!("{}\n-- configuration file:\n{}", v.explanation, text);
+        v
+    })
+}
+
 pub fn run(ctx: &RunCtx) -> Vec<PartOutcome> {
     let mut parts = vec![];
     parts.push(explore(ctx, "validation", ctx.tier.pick(6_000, 100_000), cfg_strat, check_validation));
@@ -962,6 +1005,13 @@ pub fn run(ctx: &RunCtx) -> Vec<PartOutcome> {
         Err(e) => ctx.machinery(format!("config-example.toml: {}", e)),
     }
     parts.push(explore(ctx, "settings_govern", ctx.tier.pick(2_000, 30_000), cfg_strat, check_govern));
+    parts.push(explore(
+        ctx,
+        "toml_sessions",
+        ctx.tier.pick(2_500, 40_000),
+        || crate::scenario::sc_strategy(crate::checks::mbchecks::C20G.ncfg, crate::checks::mbchecks::C20G.max_ops),
+        check_toml_session,
+    ));
     parts.push(explore_with(ctx, "binary", ctx.tier.pick(48, 600), 30, cfg_strat, check_binary));
     parts
 }
@@ -972,6 +1022,7 @@ pub fn replay(part: &str, input: &Value) -> Option<Result<Result<(), Viol>, Stri
         "hash_roundtrip" => Some(replay_input::<PwCase>(input, check_hash)),
         "documented_keys" => Some(replay_input::<KeyCase>(input, check_key)),
         "settings_govern" => Some(replay_input::<CfgCase>(input, check_govern)),
+        "toml_sessions" => Some(replay_input::<crate::scenario::ScCase>(input, check_toml_session)),
         "binary" => Some(replay_input::<CfgCase>(input, check_binary)),
         _ => None,
     }
